@@ -61,9 +61,11 @@ struct IsTriviallySerializable<T, typename std::enable_if_t<
 };
 #endif
 
+// (not an array of length zero: it has no bytes on the wire, but a size of one as a member
+// of a struct)
 template <typename T, size_t N>
 struct IsTriviallySerializable<std::array<T, N>,
-                               typename std::enable_if_t<IsTriviallySerializable<T>::value>>
+                               typename std::enable_if_t<IsTriviallySerializable<T>::value && (N > 0)>>
     : std::true_type {
 };
 
